@@ -65,8 +65,8 @@ def Served (w : World) (s : State) : Task → Prop
         match findFrom (w.mod m) n with
         | some p => (m, n) ∈ s.exportFrom ∧ Sched s (.reqName p.2.1 p.2.2)
         | none =>
-          match starProvider w (w.mod m) n with
-          | some x => (m, x) ∈ s.stars ∧ Sched s (.reqName x n)
+          match findPath w m n with
+          | some (edges, d) => (∀ e ∈ edges, e ∈ s.stars) ∧ Sched s (.reqName d n)
           | none => ∀ x ∈ (w.mod m).stars, (m, x) ∈ s.stars
   | .reqAll m wd =>
     m ∈ s.modules ∧
@@ -135,8 +135,11 @@ theorem served_mono (w : World) {s s' : State} (h : Le s s') (t : Task) (hs : Se
         | some q => simp only [hq] at hs2 ⊢; exact ⟨h.exportFrom _ hs2.1, h.sched _ hs2.2⟩
         | none =>
           simp only [hq] at hs2 ⊢
-          cases hsp : starProvider w (w.mod m) n with
-          | some x => simp only [hsp] at hs2 ⊢; exact ⟨h.stars _ hs2.1, h.sched _ hs2.2⟩
+          cases hsp : findPath w m n with
+          | some pd =>
+            obtain ⟨edges, d⟩ := pd
+            simp only [hsp] at hs2 ⊢
+            exact ⟨fun e he => h.stars _ (hs2.1 e he), h.sched _ hs2.2⟩
           | none => simp only [hsp] at hs2 ⊢; exact fun x hx => h.stars _ (hs2 x hx)
   | reqAll m wd =>
     obtain ⟨h0, h1, h2, h3, h4⟩ := hs
@@ -195,8 +198,8 @@ theorem le_stepReqName (w : World) (s : State) (m n : Nat) : Le s (stepReqName w
       · exact ⟨fun _ h => h, fun _ h => h, fun x h => mem_ins_of_mem _ x _ h, fun _ h => h, fun _ h => h,
           fun x h => mem_ins_of_mem _ x _ h, fun t ht => ht.elim Or.inl fun h => Or.inr (by simp [h])⟩
       · split
-        · exact ⟨fun _ h => h, fun _ h => h, fun _ h => h, fun x h => mem_ins_of_mem _ x _ h, fun _ h => h,
-            fun x h => mem_ins_of_mem _ x _ h, fun t ht => ht.elim Or.inl fun h => Or.inr (by simp [h])⟩
+        · exact ⟨fun _ h => h, fun _ h => h, fun _ h => h, fun x h => mem_insAll_of_mem _ _ x h, fun _ h => h,
+            fun x h => mem_insAll_of_mem _ _ x (mem_ins_of_mem _ x _ h), fun t ht => ht.elim Or.inl fun h => Or.inr (by simp [h])⟩
         · exact ⟨fun _ h => h, fun _ h => h, fun _ h => h, fun x h => mem_insAll_of_mem _ _ x h, fun _ h => h,
             fun x h => mem_ins_of_mem _ x _ h, fun t ht => ht⟩
 
@@ -269,8 +272,10 @@ theorem served_stepReqName (w : World) (s : State) (m n : Nat) :
         exact ⟨mem_ins _ _, by simp only [hd, hp, hq]; exact ⟨mem_ins _ _, Or.inr (by simp)⟩⟩
       · rename_i hq
         split
-        · rename_i x hsp
-          exact ⟨mem_ins _ _, by simp only [hd, hp, hq, hsp]; exact ⟨mem_ins _ _, Or.inr (by simp)⟩⟩
+        · rename_i edges d hsp
+          exact ⟨mem_insAll_of_mem _ _ _ (mem_ins _ _), by
+            simp only [hd, hp, hq, hsp]
+            exact ⟨fun e he => mem_insAll _ _ _ he, Or.inr (by simp)⟩⟩
         · rename_i hsp
           refine ⟨mem_ins _ _, ?_⟩
           simp only [hd, hp, hq, hsp]
